@@ -30,14 +30,19 @@ TECHNIQUE = (
     "simnet with a backend whose k-th call raises, for every k and for pairs"
 )
 LEVEL_TEXT = (
-    "Proved for every user table, decorator table, world, history prefix, command and fault plan (any number of faults, injected or "
-    "genuine): C13_fault_gives_451 (a command in which a backend call raised is answered by exactly [451] or [150;451], never 2xx), "
-    "C13_no_fault_no_451 (converse), C13_session_survives (not ended; login, cwd, listener unchanged; restart offset / pending rename / "
-    "data connection follow the fault-free rules), C13_usable_after_fault (PWD and PASV answered as usual from that state), "
-    "C13_others_unaffected (two-session product), C13_data_closed_partial (after 150 the detached stream is closed unless the "
-    "raising call was the open of a file-first context), C13_data_closed_stream_first (closed on EVERY fault for the repaired "
-    "order), C13_data_closed_refuted (witness: fault at open in RETR/STOR/APPE leaves the stream open - F4). Tied to the code by "
-    "C13_source_obligations (vm_compute on regenerated facts) and by scripts x every fault position on the real server."
+    "Proved from ONE boolean premise on the regenerated facts (params_ok: universal_exception outermost on every backend operation "
+    "incl. the PathConditions probes, dispatcher entry PathIOError -> 451 + continue, known async-with shapes), for every user table, "
+    "decorator table, block size, world (= every prior history, tree and remaining fault plan: single, repeated, or a genuine backend "
+    "error) and command: C13_fault_gives_451 (+ _generic: replies are exactly [451] or [150;451]: one 451, no 2xx), "
+    "C13_no_fault_normal_path (converse), C13_session_survives (not ended; user, login, cwd, listener unchanged; restart offset / "
+    "pending rename / data connection follow the fault-free rules), C13_usable_after_fault (PWD -> 257 with the old cwd, PASV -> 227), "
+    "C13_every_history and C13_faults_never_end_session (every command of every run), C13_others_unaffected and C13_other_steps_alone "
+    "(two sessions on one backend), C13_fault_before_150 (final 451 alone, data connection still the session's), "
+    "C13_data_closed_partial (after 150 the detached stream is closed on every fault unless the raising call was the open() of a "
+    "file-first context), C13_data_closed_stream_first (closed on EVERY fault for every parameter set with the repaired order), "
+    "C13_data_closed_refuted (witness: open() raising in RETR g leaves the stream open - F04; replayed on the real code each run). "
+    "Tied to the code by C13_source_obligations / C13_probe_obligations (vm_compute on facts regenerated from server.py / pathio.py) "
+    "and by scripts x every fault position (single, double; three exception classes; three backends) on the real server."
 )
 LEVEL_NOTE = (
     "Trusted: Coq kernel, py2v (gen_dispatch, gen_faultsites), extraction, simnet, the fault injector (rebuilds each backend method's "
